@@ -1,7 +1,7 @@
 """C19 - validation only observes: exact reference checks, exact uniqueness groups, exclusions,
 order independence, purity.
 
-Suites (both judged by Run.C19run.judge_coll, both run by impl.c19.run_coll)
+Suites (refs, coll: judged by Run.C19run.judge_coll, run by impl.c19.run_coll; shared: judge_shared / run_shared)
   refs : ONE rule; the condition texts are generated from expressions (all shapes up to a leaf bound,
          random beyond) over detection names from a hostile pool (operator-prefixed, underscore-prefixed,
          digit-leading, unreferable names with blanks / dots / line breaks / non-ASCII), several spellings
@@ -10,6 +10,13 @@ Suites (both judged by Run.C19run.judge_coll, both run by impl.c19.run_coll)
   coll : 1..5 rules drawn with repetition of ids / titles / file names / paths (any multiplicity), missing
          ids, correlation rules, every order of the rules (exhaustive up to 5 for fixed base collections),
          subsets and orders of the six modelled validators, exclusion tables.
+  shared : validator objects that live across rules: 2..5 rules cut from one template (detections are subsets
+         of a common pool; the same conditions and selector patterns recur and match in some rules only; the
+         rules share an id or have none, share titles, file names, paths), EVERY order, ONE SigmaValidator,
+         the collection validated twice by the same objects.  bit 1: Model.Validators.validate_twice; bit 2:
+         spec_issues on the first call and, for the issues attached to single rules, on the second call;
+         py_oracle: per-rule issues = what fresh validator objects report for the rule alone, = second run,
+         bare validator objects fed rule by rule in both directions.
   bit 2 (Spec.ValidatorsSpec.spec_issues) recomputes, from the source documents and the generating
   expressions only, which issues have to be present (each exactly once) and checks every reported issue.
   py_oracle: purity and order independence on the real objects for ALL built-in validators (29 of 31; the
@@ -322,6 +329,88 @@ def gen_coll(tier, rng):
     return out
 
 
+# ----------------------------------------------------------------------------- suite shared
+SHARED_POOLS = [
+    ["selection", "filter_main", "filter_opt", "_x"],
+    ["selection", "filter_main"],
+    ["sel_1", "sel_2", "filter", "notepad"],
+    ["a", "b", "_filt_y", "android", "1st"],
+    ["selection", "sel.1", "a b", "x*"],
+]
+CANON = ("and", ("id", "selection"), ("not", ("sel", "1", "filter_*")))
+
+
+def shared_family(rng, n):
+    """n rules cut from ONE template: detections are subsets of a common pool, conditions come from a common
+    small set (the same selector pattern occurs in several rules and matches in some of them only), ids /
+    titles / file names are shared (same id, no id) between rules that differ in everything else."""
+    pool = rng.choice(SHARED_POOLS) if rng.random() < 0.7 else pick_dets(rng, rng.choice([3, 4, 5]))
+    pats = patterns_for(pool, rng)
+    conds = []
+    if "selection" in pool and rng.random() < 0.7:
+        conds.append(CANON)
+    while len(conds) < rng.choice([1, 2, 2, 3]):
+        conds.append(fill(random_shape(rng, rng.choice([1, 2, 2, 3])), pool, rng, pats))
+    spelled = [(e, spell(e, rng)) for e in conds]
+    shared_id = rng.choice([None, None, UUIDS[0], UUIDS[4]])
+    other_id = rng.choice([i for i in UUIDS + [None] if i != shared_id])
+    shared_title = rng.choice(TITLES)
+    shared_path = rng.choice(PATHS[:6])
+    rules = []
+    for k in range(n):
+        m = rng.randint(1, len(pool))
+        dets = rng.sample(pool, m)
+        if k > 0 and rng.random() < 0.5:   # complement-ish of the previous rule: verdicts differ
+            prev = rules[-1]["dets"]
+            dets = [d for d in pool if d not in prev] or dets
+            if rng.random() < 0.5 and prev:
+                dets = dets + [rng.choice(prev)]
+        cs = rng.sample(spelled, rng.choice([1, 1, min(2, len(spelled))]))
+        same_file = rng.random() < 0.3
+        rules.append({"corr": False,
+                      "id": shared_id if rng.random() < 0.8 else other_id,
+                      "title": shared_title if rng.random() < 0.7 else rng.choice(TITLES),
+                      "path": (shared_path if same_file else (["d%d" % k] + shared_path[-1:])) if rng.random() < 0.8 else None,
+                      "dets": dets, "conds": [t for _, t in cs], "asts": [e for e, _ in cs],
+                      "name": "shared_name" if rng.random() < 0.5 else "name_%d" % k})
+    return rules
+
+
+def gen_shared(tier, rng):
+    out = []
+    dv = ["dangling_condition", "dangling_detection"]
+    fams = [(2, 20), (3, 14), (4, 4)] if tier == "quick" else [(2, 120), (3, 120), (4, 50), (5, 6)]
+    for n, reps in fams:
+        for _ in range(reps):
+            rules = shared_family(rng, n)
+            r = rng.random()
+            if r < 0.4:
+                vs = rng.sample(dv, 2)
+            elif r < 0.7:
+                vs = rng.sample(MODELLED, 6)
+            else:
+                vs = list(dict.fromkeys(rng.sample(dv, rng.choice([1, 2])) + rng.sample(MODELLED, rng.randint(0, 4))))
+                rng.shuffle(vs)
+            excl = excl_table(rng, rules) if rng.random() < 0.25 else []
+            for perm in itertools.permutations(range(n)):
+                out.append(mk_case(rules, list(perm), vs, excl, rng.randrange(10**6)))
+    return out
+
+
+def shared_to_coq(c, r):
+    def outc(key):
+        if "exc" in r:
+            if r.get("sigma"):
+                return "(SigmaErr 4)" if r["exc"] == "SigmaConditionError" else "(SigmaErr 99)"
+            return "(Crash 1)"
+        return f"(Ok {clist(cissue(i) for i in r[key])})"
+    E = clist(f"({copt(cstr(i)) if i else 'None'}, {clist(VK[v] for v in vs)})" for i, vs in c["excl"])
+    vs = clist(VK[v] for v in c["vs"])
+    rules = clist(crule(k, c["rules"][k]) for k in c["order"])
+    return (f"(({E} : excl), ({vs} : list vkind), ({rules} : list srule), ({outc('issues')} : outcome (list issue)), "
+            f"({outc('issues2')} : outcome (list issue)))")
+
+
 # ----------------------------------------------------------------------------- Coq terms
 def cast(e):
     k = e[0]
@@ -418,11 +507,15 @@ PROPERTY = Property(
     suites=[
         Suite("refs", gen_refs, "run_coll", REQ, "judge_coll", coll_to_coq, mutate=mutate, py_oracle=py_oracle, stratum=stratum, shard=400),
         Suite("coll", gen_coll, "run_coll", REQ, "judge_coll", coll_to_coq, mutate=mutate, py_oracle=py_oracle, stratum=stratum, shard=250),
+        Suite("shared", gen_shared, "run_shared", REQ, "judge_shared", shared_to_coq, mutate=mutate, py_oracle=py_oracle, stratum=stratum, shard=250),
     ],
     rule="refs: one rule, condition texts spelled from all expression shapes up to 3 (quick) / 4 (thorough) leaves and random ones "
          "up to 6, 1-3 conditions, detection names from a 46-name hostile pool, 70 fixed + random hostile condition texts; "
          "coll: 1-8 rules with repeated ids/titles/file names/paths in any multiplicity, missing ids, correlation rules, all rule "
          "orders of fixed collections up to 5 rules, all 64 subsets and 24 orders of modelled validators, random exclusion tables; "
+         "shared: 2-4 (thorough 5) rules cut from one template - detections are subsets of a common pool, the same conditions / "
+         "selector patterns recur and match in some rules only, ids (incl. none) / titles / file names / paths shared - validated in "
+         "EVERY order by one SigmaValidator, twice with the same validator objects, plus every rule alone with fresh objects; "
          "every case additionally runs 29 built-in validators in two orders for purity / order independence. "
          "non-trivial = the implementation reported at least one modelled issue or raised; distinct by (suite, case hash)",
     assumptions=["condition text -> parse tree is modelled (copy of C02's grammar model) and validated by the correspondence only",
